@@ -415,6 +415,32 @@ def rule_refresh(ctx):
         else:
             ctx.ok("WR.REFRESH", site, fi, fi.node, "update_units_from_index_curve is called on every path before the "
                    "first %s.write()" % fo)
+    # 3a'. no header section is laid out before the alignment either: text that is formatted early and written later carries the
+    # units (and STRT/STOP/STEP) the object had before the refresh
+    if ucalls:
+        lasp = fi.params()[0]
+
+        def section_expr(e):
+            return isinstance(e, ast.Attribute) and isinstance(e.value, ast.Name) and e.value.id == lasp and e.attr in ("curves", "well", "params")
+        early = None
+        for node in cfg.nodes:
+            if node.ast is None or node.kind not in ("stmt", "test", "for-iter"):
+                continue
+            uses = False
+            for sub in walk_expr_shallow(node.ast):
+                if isinstance(sub, ast.Call) and any(section_expr(a_) for a_ in list(sub.args) + [k.value for k in sub.keywords]):
+                    uses = True
+                if isinstance(sub, ast.comprehension) and section_expr(sub.iter):
+                    uses = True
+            if isinstance(node.ast, ast.For) and section_expr(node.ast.iter):
+                uses = True
+            if uses and node.id not in ucalls and cfg.find_path(cfg.entry, [node.id], avoid=ucalls, skip_labels=EXC):
+                early = node
+                break
+        ctx.check(early is None, "WR.REFRESH", "writer.write#layout-after-alignment", fi, early.ast if early is not None else fi.node,
+                  "no ~Well/~Curves/~Parameter section is iterated or handed to a formatter before the unit alignment",
+                  "`%s` lays out a header section on a path that has not yet aligned the units of STRT/STOP/STEP and the index curve: the "
+                  "text written now differs from what a second write of the same object produces" % (unparse(early.ast) if early is not None else ""))
     # 3b the refresh call precedes the first output too
     if calls and outs:
         rn = []
